@@ -64,6 +64,29 @@ def run_c07(rep):
                          oracle_names=["oracle_c07"], known_classes=known_classes("C07"), label="c07")
 
 
+def run_c09(rep):
+    n, ops = sizes(rep, (400, 16), (6000, 60))
+    families.play_family(rep, n, ops, features=dict(hooks=0.95, join=0.4, conds=0.7, top_jumps=0.2, stmt_faults=0.03),
+                         weights=dict(choose=62, goto=6, undo=8, redo=5, save=2, load=2, fresh=2, read=8, bad=3),
+                         oracle_names=["oracle_c09"], known_classes=known_classes("C09"), label="c09")
+
+
+def run_c10(rep):
+    n, ops = sizes(rep, (400, 20), (6000, 60))
+    families.play_family(rep, n, ops, features=dict(join=0.95, block_jumps=0.5, conds=0.7, one_time=0.5, hooks=0.3,
+                                                    params=0.15, stmt_faults=0.03, faults=0.08),
+                         weights=dict(choose=70, goto=6, undo=7, redo=5, read=5, bad=3, save=1, load=1, fresh=1),
+                         oracle_names=["oracle_c10"], known_classes=known_classes("C10"), label="c10")
+
+
+def run_c08(rep):
+    n, ops = sizes(rep, (400, 14), (6000, 40))
+    families.play_family(rep, n, ops, features=dict(top_jumps=0.6, block_jumps=0.7, markers=0.95, loops=0.5, conds=0.8,
+                                                    jump_mode_cycles=0.3, params=0.3),
+                         weights=dict(choose=65, goto=12, undo=5, redo=3, read=8, bad=3),
+                         oracle_names=["oracle_c08"], known_classes=known_classes("C08"), label="c08")
+
+
 # ------------------------------------------------------------------------------------------------ registry
 
 PROPS = {
@@ -102,6 +125,38 @@ PROPS = {
                    "globals), bind_eq_pyCall + validated_bind_never_missing (the engine's binding equals Python's call "
                    "rule on every validated call site, for all argument values)",
     ),
+    "C08": dict(
+        theorems=[T + "renderToks_append", T + "render_stops_at_jump", T + "render_first_jump_wins", T + "gotoLoop_revisit",
+                  T + "goto_out_of_fuel", T + "usable_after_failed_goto", T + "goto_frame", T + "goto_outKept"],
+        run=run_c08,
+        rule="jump graphs over 3-6 passages: top-level jumps (forward), jumps inside @if/@for (any direction in 30 % of the "
+             "stories, so cyclic chains occur), with arguments; every passage shows a marker line; per-call time limit; "
+             "distinct by hash; non-trivial as for C02",
+        level_text="proof: renderToks_append / render_stops_at_jump / render_first_jump_wins (a jump keeps what precedes it, "
+                   "skips what follows, first jump wins) for every token list and Sem; gotoLoop_revisit / goto_out_of_fuel "
+                   "(cycles answer RuntimeError / RecursionError ⊂ RuntimeError); usable_after_failed_goto. Termination of the "
+                   "model is by structural recursion on an explicit bound; the real interpreter's termination is observed by a "
+                   "per-call timer (partial: wall-clock behaviour of CPython is not modelled)",
+    ),
+    "C09": dict(
+        theorems=[T + "runHooks_runs_each_once", T + "triggerEvent_runs_registered", T + "goto_no_hookRun",
+                  T + "undo_redo_no_hookRun", T + "register_idempotent", T + "register_order", T + "unregister_keeps_others"],
+        run=run_c09,
+        rule="stories hooking/unhooking turn_end passages from passages, blocks, join blocks and hooks themselves; every hook "
+             "passage appends its name to a list variable; walks with undo/redo/save/load/goto; distinct by hash",
+        level_text="proof: a completed trigger runs each registered existing passage exactly once in registration order, "
+                   "over a copy of the list (runHooks_runs_each_once, triggerEvent_runs_registered); goto/load/undo/redo "
+                   "record no hook run; registration is idempotent, FIFO, and unhooking keeps the others' order",
+    ),
+    "C10": dict(
+        theorems=[T + "goto_joinReset", T + "joinChoice_advances", T + "undo_choose"],
+        run=run_c10,
+        rule="passages with 1-3 @join markers and mixes of join / ordinary / conditional / one-time choices, re-entered by "
+             "choice, goto and jumps inside blocks; each join block bumps its own counter; distinct by hash",
+        level_text="proof: goto_joinReset (after any successful navigation the passage it ends in is at section 0, however it "
+                   "was entered) and joinChoice_advances (a join choice moves exactly that passage from k to k+1), for every "
+                   "story and Sem; block-only-once and section text by oracle + correspondence",
+    ),
 }
 
 
@@ -119,7 +174,7 @@ def known_classes(prop):
     return {f["cls"] for f in framework.load_findings(prop) if f["cls"]}
 
 
-ORACLES_FOR = {"C02": ["oracle_c02"], "C03": ["oracle_c03"], "C04": ["oracle_c04"], "C07": ["oracle_c07"]}
+ORACLES_FOR = {"C02": ["oracle_c02"], "C03": ["oracle_c03"], "C04": ["oracle_c04"], "C07": ["oracle_c07"], "C08": ["oracle_c08"], "C09": ["oracle_c09"], "C10": ["oracle_c10"]}
 
 
 def replay_findings(prop, rep):
